@@ -3,7 +3,7 @@
    Group hypotheses appear as premises: p > 1, q prime, g (and h) of order dividing q modulo p (what CheckGroup establishes).
    Timing (time-outs) is outside the model: a stream that ends early models a failed delivery. *)
 From Coq Require Import ZArith Znumtheory List Lia.
-From LT Require Import Zbase VssModel VssLemmas VssLagrange DkgModel DkgLemmas.
+From LT Require Import Zbase VssModel VssLemmas VssLagrange DkgModel DkgLemmas DkgRoundModel DkgRoundLemmas.
 Import ListNotations.
 Local Open Scope Z_scope.
 
@@ -145,6 +145,87 @@ Theorem C15_refresh_changes : forall q x z, 0 < q -> 0 <= x < q -> z mod q <> 0 
 Proof. exact refresh_changes. Qed.
 Print Assumptions C15_refresh_changes.
 
+(* ---- GJKR new-DKG, sharing phase as a round function (DkgRoundModel: the local computation of P_i from the broadcasts B of all
+   parties and the pairs P it received point-to-point; deviating parties' messages are inputs) ------------------------------------ *)
+
+(* QUAL computed by an honest party is a function of the broadcast values only ... *)
+Theorem C15_qual_function_of_broadcasts : forall p q g h n t i B P,
+  0 <= n < 2 ^ 64 -> 0 <= i < n ->
+  b_compl (getB B i) = dkg_own_stream p q g h n i B P ->      (* P_i broadcast its complaint list and the end marker, as the code does *)
+  ans_glob p q g h n B i = false ->                           (* its own published answers pass the public check (honest dealer) *)
+  qual_view p q g h n t i B P = qual_glob p q g h n t B.
+Proof. exact qual_view_is_global. Qed.
+Print Assumptions C15_qual_function_of_broadcasts.
+
+(* ... hence all honest parties agree on QUAL, given agreement of the broadcast layer (C14): the same B at both parties *)
+Theorem C15_qual_agreement : forall p q g h n t i1 i2 B P1 P2,
+  0 <= n < 2 ^ 64 -> 0 <= i1 < n -> 0 <= i2 < n ->
+  b_compl (getB B i1) = dkg_own_stream p q g h n i1 B P1 -> b_compl (getB B i2) = dkg_own_stream p q g h n i2 B P2 ->
+  ans_glob p q g h n B i1 = false -> ans_glob p q g h n B i2 = false ->
+  qual_view p q g h n t i1 B P1 = qual_view p q g h n t i2 B P2.
+Proof. exact qual_agreement. Qed.
+Print Assumptions C15_qual_agreement.
+
+(* the disqualification rule: more than t complaints, where the party's own complaint counts like everybody else's *)
+Theorem C15_too_many_complaints_disqualify : forall p q g h n t i B P j,
+  t < cnt_view p q g h n i B P j -> ~ In j (qual_view p q g h n t i B P).
+Proof. exact too_many_complaints_disqualify. Qed.
+Print Assumptions C15_too_many_complaints_disqualify.
+
+Theorem C15_own_complaint_counts : forall p q g h n i B P w, 0 <= i < n ->
+  cnt_view p q g h n i B P w =
+  b2z (memz w (dkg_mine p q g h n i B P)) + zsum (fun j => if j =? i then 0 else b2z (memz w (acc_of n B j))) (parties n).
+Proof. exact own_complaint_counts. Qed.
+Print Assumptions C15_own_complaint_counts.
+
+Theorem C15_justified_complaints_disqualify : forall p q g h n t i B P w, 0 <= i < n -> 0 <= w < n ->
+  dkg_complains p q g h i B P w = true ->
+  t <= zsum (fun j => if j =? i then 0 else b2z (memz w (acc_of n B j))) (parties n) ->
+  ~ In w (qual_view p q g h n t i B P).
+Proof. exact justified_complaints_disqualify. Qed.
+Print Assumptions C15_justified_complaints_disqualify.
+
+(* the pair of a qualified dealer that an honest party ends with satisfies equation (4) - PARTIAL: under the premise that the party had
+   no reason to complain or the dealer's answers contain a pair for it (the code never checks that every complaint was answered) *)
+Theorem C15_dkg_final_pair_consistent_partial : forall p q g h n t i B P j, 0 <= j < n ->
+  In j (qual_view p q g h n t i B P) ->
+  dkg_complains p q g h i B P j = false \/ (j <> i /\ ans_mentions (S (Z.to_nat n)) n i (b_ans (getB B j)) = true) ->
+  share_okb p g h (viewC p q i j B) (i + 1) (fst (final_pair p q g h n t i B P j)) (snd (final_pair p q g h n t i B P j)) = true.
+Proof. exact final_pair_consistent. Qed.
+Print Assumptions C15_dkg_final_pair_consistent_partial.
+
+(* the full statement (without that premise) is REFUTED on the model of the code as it is: a dealer that sends P_1 a wrong pair and answers
+   the complaint with the end marker only stays qualified and P_1 keeps the inconsistent pair (n = 3, t = 1, p = 23, q = 11) *)
+Theorem C15_dkg_shares_consistent_unconditional_refuted :
+  In 0 (qual_view 23 11 2 3 3 1 1 wit_B wit_P) /\ dkg_defined 23 11 2 3 3 1 1 wit_B wit_P = true /\
+  b_compl (getB wit_B 1) = dkg_own_stream 23 11 2 3 3 1 wit_B wit_P /\
+  share_okb 23 2 3 (viewC 23 11 1 0 wit_B) 2 (fst (final_pair 23 11 2 3 3 1 1 wit_B wit_P 0)) (snd (final_pair 23 11 2 3 3 1 1 wit_B wit_P 0)) = false.
+Proof. exact shares_consistent_unconditional_refuted. Qed.
+Print Assumptions C15_dkg_shares_consistent_unconditional_refuted.
+
+(* for every honest j: g^x_j h^x'_j = prod_{i in QUAL} prod_k C_ik^((j+1)^k), given the per-dealer consistency above *)
+Theorem C15_dkg_shares_consistent : forall p q g h, 1 < p -> prime q -> powm g q p = 1 -> powm h q p = 1 ->
+  forall n t i B P, 0 <= i ->
+  (forall j, In j (qual_view p q g h n t i B P) ->
+     0 <= fst (final_pair p q g h n t i B P j) /\ 0 <= snd (final_pair p q g h n t i B P j) /\
+     share_ok p g h (viewC p q i j B) (i + 1) (fst (final_pair p q g h n t i B P j)) (snd (final_pair p q g h n t i B P j)) = Some true) ->
+  (powm g (fst (view_x p q g h n t i B P)) p * powm h (snd (view_x p q g h n t i B P)) p) mod p =
+  fold_right (fun j a => (rhs_prod p (viewC p q i j B) (i + 1) * a) mod p) (1 mod p) (qual_view p q g h n t i B P).
+Proof. exact shares_consistent. Qed.
+Print Assumptions C15_dkg_shares_consistent.
+
+(* the key: y = prod_{i in QUAL} A_i0 is g to the secret that any t+1 (or more) key shares interpolate to, when the extraction values
+   A_i0 = g^z_i of all QUAL members are consistent with their polynomials (as published, or as recomputed after reconstruction) *)
+Theorem C15_dkg_key : forall p q g P qual ys tdeg pts r,
+  1 < p -> prime q -> powm g q p = 1 -> qual <> [] ->
+  (forall j, In j qual -> Forall (fun c => 0 <= c) (P j) /\ (length (P j) <= tdeg)%nat /\ nthz ys j = powm g (hd 0 (P j)) p) ->
+  (tdeg <= length pts)%nat -> NoDup (map fst pts) ->
+  (forall x y, In (x, y) pts -> 0 <= x < q /\ exists s, y = sum_qual q qual s /\ forall j, In j qual -> nthz s j mod q = poly_eval q (P j) x) ->
+  lagrange0 q pts = Some r ->
+  powm g r p = dkg_y p qual ys.
+Proof. exact dkg_key. Qed.
+Print Assumptions C15_dkg_key.
+
 (* non-vacuity: a concrete group and sharing meeting the hypotheses; the formulas compute what they should *)
 Example C15_nonvacuous_group : powm 2 11 23 = 1 /\ powm 3 11 23 = 1 /\ 2 mod 23 <> 1.
 Proof. repeat split; try reflexivity. discriminate. Qed.
@@ -161,3 +242,12 @@ Example C15_nonvacuous_corrected :
 Proof. split; vm_compute; reflexivity. Qed.
 Example C15_nonvacuous_answered : answered 23 11 2 3 (commits 23 2 3 [5; 4] [2; 7]) [2] [2; poly_eval 11 [5; 4] 3; poly_eval 11 [2; 7] 3].
 Proof. constructor; try reflexivity. constructor. Qed.
+
+(* the round function on a concrete run (three parties, one wrong pair, complaint answered): P_1 and the observer agree on QUAL *)
+Example C15_nonvacuous_round :
+  let B := [ mkB (commits 23 2 3 [5; 4] [2; 7]) [3] [1; 2; 5; 3];
+             mkB (commits 23 2 3 [1; 2] [3; 4]) [0; 3] [3];
+             mkB (commits 23 2 3 [6; 1] [0; 9]) [3] [3] ] in
+  dkg_view 23 11 2 3 3 1 1 B wit_P = Some ([0; 1; 2], ((2 + poly_eval 11 [1; 2] 2 + poly_eval 11 [6; 1] 2) mod 11, (5 + poly_eval 11 [3; 4] 2 + poly_eval 11 [0; 9] 2) mod 11)) /\
+  qual_glob 23 11 2 3 3 1 B = [0; 1; 2] /\ b_compl (getB B 1) = dkg_own_stream 23 11 2 3 3 1 B wit_P /\ ans_glob 23 11 2 3 3 B 1 = false.
+Proof. repeat split; vm_compute; reflexivity. Qed.
